@@ -1,5 +1,5 @@
 import CollectionsC.Properties.C01Sized
-import CollectionsC.Proofs.ArraySized8
+import CollectionsC.Proofs.ArraySized9
 /-! # C15 (sized array part) — derived arrays are exact and independent
 
 Statements only.  `subarray`, `copy`, `filter` return a *new* array value.  The clauses "building
@@ -94,6 +94,67 @@ theorem derived_history (a s : ArraySized) (m m' : Mem) (h : a.Inv) (hs : (a.cop
   have := C01Sized.C01_sized s ops m' i1 (by rw [i3]; exact hw)
   rw [i2] at this
   exact ⟨this.1, this.2.1⟩
+
+/-- any history on a sub-array or on a filter result refines the ideal sequence started from the
+selected records -/
+theorem derived_history_sub_filter (a s : ArraySized) (b e : Nat) (p : List Nat → Bool) (m m' : Mem) (h : a.Inv)
+    (ops : List (Spec.SSeq.Op Elem)) (hw : ∀ op ∈ ops, OpWF a.dataLen op) :
+    (b ≤ e → e < a.size → (a.subarray b e m).2.1 = some s →
+      (s.run ops m').1 = (Spec.SSeq.run ((a.abs.drop b).take (e - b + 1)) ops (s.refusals ops m')).1 ∧
+      (s.run ops m').2.1.abs = (Spec.SSeq.run ((a.abs.drop b).take (e - b + 1)) ops (s.refusals ops m')).2) ∧
+    (0 < a.size → (a.filter p m).2.2.1 = some s →
+      (s.run ops m').1 = (Spec.SSeq.run (a.abs.filter p) ops (s.refusals ops m')).1 ∧
+      (s.run ops m').2.1.abs = (Spec.SSeq.run (a.abs.filter p) ops (s.refusals ops m')).2) := by
+  constructor
+  · intro hb he hs
+    obtain ⟨i1, i2, i3, _⟩ := (C01Sized.C15_sized_derived a b e p m h).1 hb he s hs
+    have := C01Sized.C01_sized s ops m' i1 (by rw [i3]; exact hw)
+    rw [i2] at this
+    exact ⟨this.1, this.2.1⟩
+  · intro h0 hs
+    obtain ⟨i1, i2, i3, _⟩ := (C01Sized.C15_sized_derived a b e p m h).2.2 h0 s hs
+    have := C01Sized.C01_sized s ops m' i1 (by rw [i3]; exact hw)
+    rw [i2] at this
+    exact ⟨this.1, this.2.1⟩
+
+/-- **ledger of a successful builder and destroy of its result**: the result owns two blocks of the
+source's triple, and destroying it releases exactly those two through that triple (the live-block
+counter is back to its value before the builder ran), without a fault -/
+theorem derived_destroy (a s : ArraySized) (b e : Nat) (p : List Nat → Bool) (m : Mem) (h : a.Inv) :
+    ((a.copy m).2.1 = some s → own (a.copy m).2.2 a.triple = own m a.triple + 2 ∧
+      own (s.destroy (a.copy m).2.2) a.triple = own m a.triple ∧ (s.destroy (a.copy m).2.2).fault = m.fault) ∧
+    ((a.subarray b e m).2.1 = some s → own (a.subarray b e m).2.2 a.triple = own m a.triple + 2 ∧
+      own (s.destroy (a.subarray b e m).2.2) a.triple = own m a.triple ∧
+      (s.destroy (a.subarray b e m).2.2).fault = m.fault) ∧
+    ((a.filter p m).2.2.1 = some s → own (a.filter p m).2.2.2 a.triple = own m a.triple + 2 ∧
+      own (s.destroy (a.filter p m).2.2.2) a.triple = own m a.triple ∧
+      (s.destroy (a.filter p m).2.2.2).fault = m.fault) := by
+  refine ⟨fun hs => ?_, fun hs => ?_, fun hs => ?_⟩
+  · rcases copy_spec a m h with ⟨s', h1, _, _, _, h5, _, _, h8, h9, _⟩ | ⟨_, h2, _⟩
+    · rw [h1] at hs; cases hs
+      have ht : s.triple = a.triple := congrArg Prod.snd h5
+      have := destroy_ledger s (a.copy m).2.2 (by rw [ht, h8]; omega)
+      rw [ht] at this
+      exact ⟨h8, by rw [this.1, h8]; omega, by rw [this.2.1, h9]⟩
+    · rw [h2] at hs; cases hs
+  · by_cases hr : b ≤ e ∧ e < a.size
+    · rcases subarray_spec a b e m h hr.1 hr.2 with ⟨s', h1, _, _, _, h5, _, _, h8, h9, _⟩ | ⟨_, h2, _⟩
+      · rw [h1] at hs; cases hs
+        have ht : s.triple = a.triple := congrArg Prod.snd h5
+        have := destroy_ledger s (a.subarray b e m).2.2 (by rw [ht, h8]; omega)
+        rw [ht] at this
+        exact ⟨h8, by rw [this.1, h8]; omega, by rw [this.2.1, h9]⟩
+      · rw [h2] at hs; cases hs
+    · rw [subarray_inert a b e m (by omega)] at hs; cases hs
+  · by_cases h0 : 0 < a.size
+    · rcases filter_spec a p m h h0 with ⟨s', h1, _, _, _, h5, _, h7, h8, _⟩ | ⟨_, h2, _⟩
+      · rw [h1] at hs; cases hs
+        have ht : s.triple = a.triple := congrArg Prod.snd h5
+        have := destroy_ledger s (a.filter p m).2.2.2 (by rw [ht, h7]; omega)
+        rw [ht] at this
+        exact ⟨h7, by rw [this.1, h7]; omega, by rw [this.2.1, h8]⟩
+      · rw [h2] at hs; cases hs
+    · rw [filter_inert a p m (by omega)] at hs; cases hs
 
 /-- **source unchanged / independent** (`_model`): true by construction in a value model, see the
 file header; the harness carries the aliasing part -/
